@@ -61,7 +61,7 @@ def guess_key(key: KeyFlexible, obj: GuestProtocol, use_random: bool = False) ->
     if isinstance(_norm_key, KeySet):
         headers = obj.headers()
         kid = headers.get("kid")
-        if not kid and use_random:
+        if kid is None and use_random:
             # choose one key by random
             rv_key = _norm_key.pick_random_key(headers["alg"])  # type: ignore[assignment]
             if rv_key is None:
